@@ -170,4 +170,48 @@ Proof.
   destruct es' as [|e1 r] eqn:E'; [unfold es' in E'; destruct es1; discriminate|].
   apply meta_roundtrip; assumption.
 Qed.
+
+(* adding a key no entry carries: one line "key:<tab>value" is appended to the block; the block's lines and everything after
+   the block stay, and the new text reads back as the old entries followed by the new one *)
+Theorem update_adds_new_key es tail key value :
+  es <> [] ->
+  forallb wf_entry es = true ->
+  (match es with e1 :: _ => forallb is_ws (snd e1) = false | [] => True end) ->
+  tail_ok tail ->
+  (forall e, In e es -> bytes_eqb_l (label_from_string key) (label_from_string (fst e)) = false) ->
+  meta_update ws (block_text es ++ tail) key value = block_text (es ++ [(key, 9 :: value)]) ++ tail.
+Proof.
+  intros Hne Hw Hv Ht Hno.
+  destruct es as [|e1 r]; [congruence|].
+  assert (MR : meta_parse ws (block_text (e1 :: r) ++ tail) = Some (result ws (e1 :: r), length (block_text (e1 :: r)))).
+  { apply meta_roundtrip; assumption. }
+  remember (e1 :: r) as es eqn:Ees.
+  unfold meta_update. rewrite MR, result_eq.
+  change (upd_range (label_from_string key)) with (fun ms => fold_left (step (label_from_string key)) ms (@None nat, @None nat)). cbv beta.
+  rewrite fold_no_match.
+  2:{ intros p Hp. apply Hno. clear - Hp. revert Hp. generalize 0%nat. induction es as [|e l IH]; intros off Hp; [destruct Hp|].
+      cbn [with_offsets] in Hp. destruct Hp as [<-|Hp]; [left; reflexivity | right; exact (IH _ Hp)]. }
+  assert (Hpos : (0 < length (block_text es))%nat).
+  { pose proof (entries_le_text es) as HL. rewrite Ees in HL at 1. cbn [length] in HL. lia. }
+  destruct (Nat.eqb_spec (length (block_text es)) 0) as [E0|_]; [lia|].
+  rewrite firstn_app_exact, skipn_app_exact, block_text_app. cbn [block_text flat_map]. unfold entry_line. cbn [fst snd app].
+  rewrite <- !app_assoc. cbn [app]. rewrite <- !app_assoc. reflexivity.
+Qed.
+
+Corollary added_key_reads_back es tail key value :
+  es <> [] ->
+  forallb wf_entry es = true ->
+  (match es with e1 :: _ => forallb is_ws (snd e1) = false | [] => True end) ->
+  tail_ok tail ->
+  (forall e, In e es -> bytes_eqb_l (label_from_string key) (label_from_string (fst e)) = false) ->
+  wf_key key = true -> no_eol value = true ->
+  meta_parse ws (meta_update ws (block_text es ++ tail) key value) =
+  Some (result ws (es ++ [(key, 9 :: value)]), length (block_text (es ++ [(key, 9 :: value)]))).
+Proof.
+  intros Hne Hw Hv Ht Hno Hk Hnv. rewrite (update_adds_new_key es tail key value Hne Hw Hv Ht Hno).
+  destruct es as [|e1 r]; [congruence|]. cbn [app].
+  apply meta_roundtrip; [|exact Hv|exact Ht].
+  change (e1 :: r ++ [(key, 9 :: value)]) with ((e1 :: r) ++ [(key, 9 :: value)]). rewrite forallb_app, Hw. cbn [forallb andb].
+  unfold wf_entry. cbn [fst snd]. rewrite Hk. unfold no_eol in *. cbn [forallb]. rewrite Hnv. reflexivity.
+Qed.
 End WS.
